@@ -278,6 +278,7 @@ func scaledPrograms(tier string) []engineProgram {
 			out = append(out, engineProgram{Desc: fmt.Sprintf("scaled: block kind %d nested %d deep", wi, k), Script: &model.Script{Name: "S", Body: in}})
 		}
 	}
+	out = append(out, mixedNestingPrograms(tier)...)
 	for k := 5; k <= caseK; k++ {
 		for variant := 0; variant < 3; variant++ {
 			sw := model.Stmt{Kind: model.SSwitch, Operand: mvar("X")}
@@ -292,6 +293,69 @@ func scaledPrograms(tier string) []engineProgram {
 				sw.Cases = append(sw.Cases, model.Case{Default: true, Body: []model.Stmt{mcmd("d")}})
 			}
 			out = append(out, engineProgram{Desc: fmt.Sprintf("scaled: switch with %d cases, variant %d", k, variant), Script: &model.Script{Name: "S", Body: []model.Stmt{mcmd("a"), sw, mcmd("z")}}})
+		}
+	}
+	return out
+}
+
+// mixedNestingPrograms: block kinds of different kinds nested in every order (see the comment inside).
+func mixedNestingPrograms(tier string) []engineProgram {
+	var out []engineProgram
+	// mixed nesting: every ordered triple of block kinds (thorough: also every quadruple around the plain core) around
+	// each of six cores - a command, a guarded break, a guarded continue, a labelled command with a goto to it from the
+	// script start, a switch followed by return, and end
+	wr := labelWrappers()
+	isLoop := func(w int) bool { return w >= 4 && w <= 6 }
+	isBreakable := func(w int) bool { return w >= 4 }
+	depth := 3
+	if tier == "thorough" {
+		depth = 4
+	}
+	for d := 3; d <= depth; d++ {
+		n := 1
+		for i := 0; i < d; i++ {
+			n *= len(wr)
+		}
+		for x := 0; x < n; x++ {
+			kinds := make([]int, d) // kinds[0] is the outermost
+			anyLoop, anyBreakable := false, false
+			for i, y := 0, x; i < d; i++ {
+				kinds[i] = y % len(wr)
+				y /= len(wr)
+				anyLoop = anyLoop || isLoop(kinds[i])
+				anyBreakable = anyBreakable || isBreakable(kinds[i])
+			}
+			for core := 0; core < 6; core++ {
+				if d == 4 && core != 0 && core != 2 {
+					continue
+				}
+				var in, pre []model.Stmt
+				switch core {
+				case 0:
+					in = []model.Stmt{mcmd("core")}
+				case 1:
+					if !anyBreakable {
+						continue
+					}
+					in = []model.Stmt{mcmd("core"), {Kind: model.SIf, Arms: []model.Arm{{Cond: mflag("BRK"), Body: []model.Stmt{{Kind: model.SBreak}}}}}, mcmd("after")}
+				case 2:
+					if !anyLoop {
+						continue
+					}
+					in = []model.Stmt{mcmd("core"), {Kind: model.SIf, Arms: []model.Arm{{Cond: mflag("CNT"), Body: []model.Stmt{{Kind: model.SContinue}}}}}, mcmd("after")}
+				case 3:
+					pre = []model.Stmt{{Kind: model.SGotoIf, Name: "LCORE", Flag: "JIN", WantSet: true}}
+					in = []model.Stmt{mcmd("before"), {Kind: model.SLabel, Name: "LCORE"}, mcmd("core")}
+				case 4:
+					in = []model.Stmt{{Kind: model.SSwitch, Operand: mvar("XC"), Cases: []model.Case{{Val: 1, Body: []model.Stmt{mcmd("c1"), {Kind: model.SBreak}}}, {Default: true, Body: []model.Stmt{mcmd("cd")}}}}, {Kind: model.SReturn}}
+				default:
+					in = []model.Stmt{mcmd("core"), {Kind: model.SEnd}}
+				}
+				for i := d - 1; i >= 0; i-- {
+					in = []model.Stmt{mcmd(fmt.Sprintf("a%d", i)), wr[kinds[i]](in, i), mcmd(fmt.Sprintf("z%d", i))}
+				}
+				out = append(out, engineProgram{Desc: fmt.Sprintf("mixed nesting: block kinds %v (outermost first) around core %d", kinds, core), Script: &model.Script{Name: "S", Body: append(pre, in...)}})
+			}
 		}
 	}
 	return out
